@@ -40,31 +40,57 @@ for k in (0, 3):
 
 _CT = ["HEAP", "VECTOR", "LIST", "SET", "NAIVE_VECTOR", "SMALL_VECTOR", "UNORDERED_SET", "INTRUSIVE_LIST", "INTRUSIVE_SET"]
 
+# input classes added after the audit (about half of what seeds 1-3 measure in the quick tier)
+_NEW_FLOORS = [("op.range_column_aliasing_target", 14000), ("op.add_to.range_column_aliasing_target", 6000),
+               ("op.multiply_target_and_add_to.range_column_aliasing_target", 4000),
+               ("op.multiply_source_and_add_to.range_column_aliasing_target", 4000),
+               ("op.insert_boundary", 55000), ("op.insert_boundary_while_lazy_pending", 2300),
+               ("op.insert_column.beyond_end", 5500), ("hole.addition_source", 20000), ("hole.addition_target", 30000),
+               ("hole.zeroed", 8000), ("hole.swapped", 2500), ("hole.removed", 1100),
+               ("op.range_vector_unsorted", 4500), ("field.p2_with_general_coefficients", 1700), ("field.p_above_256", 2000),
+               ("field.p_4099", 300), ("op.swap_columns.same_index", 3000),
+               ("op.erase_empty_row.row_never_inserted", 6000), ("op.erase_empty_row.row_created_by_addition_only", 600),
+               ("op.erase_empty_row.while_lazy_pending", 300),
+               ("op.other_matrix_column_as_source", 19000), ("op.other_matrix_source_with_pending_swap", 4000),
+               ("cmp.get_content_shorter_length", 2300000)]
+
 SPEC = {
     "property": "C09",
     "rule": "random histories of 5-60 operations on a base Matrix<Options> (1-16 rows, <= 8 columns, deliberately non-square; "
-            "p = 2 or p in {3,5,7,13}; built by one of 3 constructors): insert_column (end / explicit index of a removed column), "
-            "remove_last / remove_column, add_to / multiply_target_and_add_to / multiply_source_and_add_to by column index, by a "
-            "vector of entries and by a column obtained with get_column (coefficients 0,1,2,p-1,p,p+1,-1,-p,large,<-p,random; sources "
+            "is_z2 with p = 2, or general coefficients with p in {2,3,5,7,13,251,257} and, once in 40 cases, 4099; built by one of 3 "
+            "constructors): insert_column / insert_boundary (half of the insertions at the end; with a random ignored dimension one "
+            "third of the time) at the end, at the explicit index of a removed column, or (no row access, no compression) 1-3 "
+            "positions beyond the end - the skipped indices are empty columns of the model and are then addressed like any column "
+            "(reads, additions from / into them, zeroing, swaps, removal; aimed at on purpose) -, remove_last / remove_column, "
+            "add_to / multiply_target_and_add_to / multiply_source_and_add_to by column index, by a vector of entries (in random "
+            "order half of the time for HEAP and UNORDERED_SET columns, where this is documented as allowed), by a column obtained "
+            "with get_column - once in 12 range operations the target column itself or, with compression, the column of a member "
+            "of its class - and by a column of a second matrix of the same type which, when swaps are on, has its own pending row "
+            "swap half of the time (coefficients 0,1,2,p-1,p,p+1,-1,-p,large,<-p,random; sources "
             "and targets preferentially empty one third of the time; with compression, sources chosen so that the target becomes "
-            "identical to a column of another class), zero_entry (present and absent entries), zero_column, swap_columns, swap_rows "
-            "(any row index < R, including rows >= number of columns and rows never given to the matrix), erase_empty_row; the same "
+            "identical to a column of another class), zero_entry (present and absent entries), zero_column, swap_columns (once in 8 "
+            "with twice the same index), swap_rows "
+            "(any row index < R, including rows >= number of columns and rows never given to the matrix), erase_empty_row of any "
+            "row that is empty in the model (also never inserted, created only by an addition, or while a swap is pending); the same "
             "operation is applied to a dense Z_p model (zp_dense.h).  After every operation get_number_of_columns, is_zero_column and "
             "is_zero_entry of every cell are compared (these do not trigger the lazy row reordering); get_column(i).get_content "
-            "(fixed and default length) of every column and get_row(r) (as the set of (column, value); (class, value) with "
-            "compression) of every materialised row are compared after every operation when swaps are off and after a random half "
+            "(length R, one random length < R, default length) of every column and get_row(r) (as the set of (column, value); "
+            "(class, value) with compression; every listed entry must report row r) of every materialised row are compared after "
+            "every operation when swaps are off and after a random half "
             "of them when swaps are on (they trigger the reordering).  With column compression an operation on a column is applied "
             "to its whole class in the model (both readings of 'class of a zero column' are accepted). "
             "non-trivial = distinct history with >= 3 additive operations, >= 3 operation kinds, >= 4 non-zero entries at some point "
             "and at least one corner operand (empty target, coefficient = 0 mod p, zero_entry of an absent entry, creation of an "
             "entry at a cell that was zeroed while absent)",
     "assumptions": [
-        "additions by index use source == target (or, with compression, another member of the target's class) once in 12 operations; a column of the matrix obtained through get_column is never passed as an entry range for an addition onto itself (aliased entry ranges are not exercised)",
+        "additions by index use source == target (or, with compression, another member of the target's class) once in 12 operations, additions by entry range use get_column(target) (or get_column of a member of the target's class) once in 12 operations; expected result in both forms: the column scaled by (coefficient + 1)",
         "the row indices of an entry vector used as a source are public ones (also while a lazy row swap is pending)",
-        "no insertion beyond the end (no holes other than those left by remove_column); operations never address a removed index",
-        "get_row(r) is only called for rows that certainly exist in the row container (lower bound derived from the model)",
-        "erase_empty_row only on empty rows whose index was given to the matrix in an inserted column (and not erased since)",
-        "inserted / range values are non-zero mod p; p is prime; ranges are sorted by increasing row index",
+        "an index skipped by insert_column(column, index) beyond the end is an empty column that exists (counted by get_number_of_columns, readable, writable), as documented for remove_last / remove_column; no column is inserted at such an index while it exists; operations never address a removed index",
+        "insert_boundary is equivalent to insert_column for a basic matrix (documented); its dimension argument is ignored",
+        "get_row(r) is only called for rows that certainly exist in the row container (lower bound derived from the model); get_row of a row that never received an entry is undocumented and stays excluded",
+        "erase_empty_row on any row without a non-zero value in the model (its documented precondition), whether or not the matrix ever saw the row index",
+        "inserted / range values are non-zero mod p and < p in a range (documented as non-zero elements of the field; 0 or >= p stay excluded); p is prime; ranges are sorted by increasing row index except for HEAP and UNORDERED_SET columns",
+        "the second matrix is only read (get_column after swap_rows); it is built over the same p with its own settings; it is not used with p = 4099",
         "iteration over a column (begin/end) and Column::size() are not compared (lazy representations are allowed to differ)",
         "a SIGABRT handler prints a sanitizer stack so that libstdc++ assertion failures are attributed to a library frame",
         "the dense model harness/c09_base_matrix/zp_dense.h is the trusted oracle",
@@ -75,8 +101,9 @@ SPEC = {
         "quick": dict([("_distinct_nontrivial", 19000), ("steps", 700000), ("cmp.get_row", 1500000), ("cmp.get_content", 2300000),
                        ("op.swap_rows.row_index_ge_ncols", 20000), ("op.swap_rows.fresh_row", 11000),
                        ("obs.forced_while_lazy_pending", 35000), ("op.additive_while_lazy_pending", 12000),
-                       ("op.erase_empty_row", 5000), ("op.remove_column", 7000), ("op.make_identical_to_other_class", 6000),
+                       ("op.erase_empty_row", 10000), ("op.remove_column", 7000), ("op.make_identical_to_other_class", 6000),
                        ("op.add_to.range_vector", 50000), ("op.additive_with_source_equal_to_target", 15000), ("op.multiply_source_and_add_to.range_column", 12000)] +
+                      _NEW_FLOORS +
                       [(ct + ".into_empty_target", 12000) for ct in _CT] +
                       [(ct + ".scaled_source_into_empty_target", 3500) for ct in _CT] +
                       [(ct + ".coef_zero", 7500) for ct in _CT] +
@@ -85,18 +112,20 @@ SPEC = {
         "thorough": dict([("_distinct_nontrivial", 300000), ("steps", 20000000), ("cmp.get_row", 30000000)] +
                          [(ct + ".into_empty_target", 150000) for ct in _CT] +
                          [(ct + ".coef_zero", 90000) for ct in _CT] +
-                         [(ct + ".zero_absent_then_created", 3000) for ct in _CT]),
+                         [(ct + ".zero_absent_then_created", 3000) for ct in _CT] +
+                         [(n, 10 * v) for (n, v) in _NEW_FLOORS]),
     },
     "exhaustive": {"quick": False, "thorough": False},
     "manifest": {
         "text": "Runtime monitor: for every one of the 9 column containers, both coefficient modes and a pairwise-style selection of "
                 "row-access / removable-row / map-container / swap / compression options, thousands of random operation histories "
                 "(corner operands included: empty sources and targets, coefficients congruent to 0, zeroing of absent entries, row "
-                "indices beyond the number of columns) are applied to the real Matrix and to a dense Z_p reference; after every "
+                "indices beyond the number of columns, a column added onto itself by index or as entry range, columns at indices "
+                "skipped by an insertion beyond the end, unsorted ranges where allowed, columns of another matrix as source) are applied to the real Matrix and to a dense Z_p reference; after every "
                 "operation every cell, every column content, every emptiness flag, the column count and every materialised row are "
                 "compared, under ASan+UBSan and libstdc++ assertions. Held on what was observed, not a proof.",
-        "note": "trusted: the dense model in harness/c09_base_matrix/zp_dense.h; self-addition (source = target or same compressed class) "
-                "and addressing of never-inserted column indices are outside the exercised domain",
+        "note": "trusted: the dense model in harness/c09_base_matrix/zp_dense.h; get_row of never-materialised rows, range elements "
+                "that are 0 or >= p and addressing of removed column indices are outside the exercised domain",
         "technique": "runtime monitoring: randomized operation histories + dense reference-model oracle after every step, under "
                      "AddressSanitizer/UBSan/_GLIBCXX_ASSERTIONS",
     },
